@@ -57,8 +57,18 @@ type Options struct {
 func canDrop(m string) bool  { return m == "" || m == "rep" || m == "aff" }
 func canSplit(m string) bool { return m == "" || m == "rep" || m == "mul" }
 
+// tooBig is thrown when a synthesis grows out of hand: a continuation is generated once per branch of
+// every choice that is consumed in front of it, so a few nested choices in one context multiply
+// (rare, but one such draw costs minutes in a -race build). Generate turns it into a trivial program.
+type tooBig struct{}
+
+const maxFresh = 2500
+
 func (g *G) fresh(p string) string {
 	g.n++
+	if g.n > maxFresh {
+		panic(tooBig{})
+	}
 	if g.collide && len(p) == 1 {
 		// binder names are only unique within one definition: y1, y2, ... restart in every definition
 		g.scopes[len(g.scopes)-1]++
@@ -699,7 +709,17 @@ func (g *G) hereditarilyPositive(t *Ty, d int) bool {
 var modePairs = [][2]string{{"lin", "rep"}, {"lin", "aff"}, {"lin", "mul"}, {"aff", "rep"}, {"mul", "rep"}}
 
 // Generate builds a closed program from the choice function intn(n) in [0,n).
-func Generate(intn func(int) int, opt Options) *Program {
+func Generate(intn func(int) int, opt Options) (prog *Program) {
+	defer func() {
+		if r := recover(); r != nil {
+			if _, ok := r.(tooBig); !ok {
+				panic(r)
+			}
+			// a trivial, well-typed stand-in (counted by nobody: it is just a small case)
+			u := &Ty{K: KUnit}
+			prog = &Program{TEnv: TyEnv{}, Procs: []*Proc{{Names: []string{"main"}, T: u, Body: &Print{L: "p", K: &Close{}}}}}
+		}
+	}()
 	g := &G{intn: intn, collide: opt.Collide, distinct: opt.DistinctLabels, mk: map[string]string{}, labels: []string{"p", "q", "u", "v", "w"}, named: map[string]*Ty{}, inprog: map[string]bool{}}
 	g.push()
 	p := &Program{TEnv: TyEnv{}}
